@@ -144,6 +144,18 @@ static void vegas_case(report& r, std::string const& id, sz iters, int gridkind,
         LOG<T>().clear();
         chk = hep::vegas(integrand, calls, chk, vf::never_stop()); log = LOG<T>();
     }
+    else if (mode == 61)
+    {
+        // one iteration, written to text and read back, continued, back to the start, then the run proper
+        chk = hep::vegas(integrand, std::vector<sz>{calls[0] + 3}, chk, vf::never_stop());
+        std::ostringstream out; chk.serialize(out);
+        std::istringstream in(out.str());
+        auto loaded = hep::make_vegas_chkpt<T, E>(in);
+        loaded = hep::vegas(integrand, std::vector<sz>{calls[0] + 1}, loaded, vf::never_stop());
+        loaded.rollback(0);
+        LOG<T>().clear();
+        chk = hep::vegas(integrand, calls, loaded, vf::never_stop()); log = LOG<T>();
+    }
     else if (mode < 100)
     {
         sz const split = mode == 50 ? 0 : sz(mode);
@@ -258,6 +270,17 @@ static void mc_case_with(report& r, std::string const& id, sz iters, int wkind, 
         chk.rollback(0);
         LOG<T>().clear();
         chk = hep::multi_channel(integrand, calls, chk, vf::never_stop()); log = LOG<T>();
+    }
+    else if (mode == 61)
+    {
+        chk = hep::multi_channel(integrand, std::vector<sz>{calls[0] + 3}, chk, vf::never_stop());
+        std::ostringstream out; chk.serialize(out);
+        std::istringstream in(out.str());
+        auto loaded = hep::make_multi_channel_chkpt<T, E>(in);
+        loaded = hep::multi_channel(integrand, std::vector<sz>{calls[0] + 1}, loaded, vf::never_stop());
+        loaded.rollback(0);
+        LOG<T>().clear();
+        chk = hep::multi_channel(integrand, calls, loaded, vf::never_stop()); log = LOG<T>();
     }
     else if (mode < 100)
     {
@@ -382,7 +405,7 @@ static void for_type(report& r)
     if (!r.want_prefix(tn)) return;
     for (sz iters = 1; iters <= (r.a().thorough() ? 5u : 4u); ++iters)
     {
-        std::vector<int> modes = {0, 50, 60};  // 50: written to text and read back before the first iteration; 60: after another run and a rollback to the start
+        std::vector<int> modes = {0, 50, 60, 61};  // 50: written to text and read back before the first iteration; 60: after another run and a rollback to the start
         for (sz s = 1; s < iters; ++s) modes.push_back(int(s));
         for (int p = 1; p <= (r.a().thorough() ? 4 : 3); ++p) modes.push_back(100 + p);
         // a serial run resumed under MPI (from text, after s iterations)
